@@ -34,6 +34,20 @@ def _ensure_integer_ids(df: pd.DataFrame) -> pd.DataFrame:
         id_mapping = {
             original_id: new_id for new_id, original_id in enumerate(unique_ids, start=1)
         }
+        # Only the documented "no parent" encodings (missing, empty string, -1) may map
+        # to no parent: any other value that is not an id is a link to an unknown node
+        unknown_parents = [
+            parent
+            for parent in df["parent_id"].unique()
+            if not pd.isna(parent)
+            and parent not in id_mapping
+            and parent not in ("", -1, "-1")
+        ]
+        if unknown_parents:
+            raise ValueError(
+                f"parent_id values {unknown_parents} do not match any value in the "
+                "'id' column"
+            )
         df["id"] = df["id"].map(id_mapping)
         df["parent_id"] = df["parent_id"].map(id_mapping).astype(pd.Int64Dtype())
 
